@@ -63,7 +63,7 @@ def confirm_and_run(sid, checks, tier, seeds):
         runs = meta.setdefault("runs", [])
         for chk in checks:
             for seed in seeds:
-                env2 = dict(os.environ, SYSLOSS_SRC=wt + "/src", VERIF_SEED=str(seed))
+                env2 = dict(os.environ, SYSLOSS_SRC=wt + "/src", VERIF_SEED=str(seed), VERIF_NOSHRINK="1")
                 rc, out, wall = sh("cd {} && /venv/bin/python check.py {} --tier {}".format(
                     HERE, chk, tier), env2)
                 first = ""
